@@ -232,7 +232,7 @@ impl<'tcx> Cx<'tcx> {
             // string literal
             if let ty::Ref(_, inner, _) = t.kind() {
                 if inner.is_str() {
-                    if let Some(b) = (match c.const_ { MirConst::Val(v, _) => v.try_get_slice_bytes_for_diagnostics(self.tcx), _ => None }) {
+                    if let Some(b) = match c.const_ { MirConst::Val(v, _) => v.try_get_slice_bytes_for_diagnostics(self.tcx), _ => None } {
                         let s = String::from_utf8_lossy(b);
                         let s: String = s.chars().take(120).collect();
                         let _ = write!(o, ",\"str\":{}", esc(&s));
@@ -881,7 +881,7 @@ impl Callbacks for Cb {
     }
 }
 
-fn main() {
+fn main() -> std::process::ExitCode {
     // argv: [driver, rustc, args...] under RUSTC_WORKSPACE_WRAPPER
     let mut args: Vec<String> = std::env::args().collect();
     if args.len() > 1 && (args[1].ends_with("rustc") || args[1].contains("/rustc")) {
@@ -895,7 +895,9 @@ fn main() {
         .collect();
     let out = std::env::var("ECFACTS_OUT").unwrap_or_else(|_| ".".into());
     let mut cb = Cb { crates, out };
-    rustc_driver::catch_with_exit_code(|| {
+    let code = rustc_driver::catch_with_exit_code(|| {
         rustc_driver::run_compiler(&args, &mut cb);
     });
+    // propagate compile errors to cargo: a tree that does not build must not yield facts
+    code
 }
